@@ -50,8 +50,12 @@ fn refine(s: ObsState, call: ObsCall) {
     assert!(log.len() == 1 && log.get(0) == emitted, "obs.emit: callback trace differs from the contract");
   }
   let got = abs(&ob);
+  // C17 direction first (a slot the contract empties must not keep its closure), then equality (C01 / C05)
+  assert!(!(got.n && !post.n), "obs.post: next slot differs from the contract: the callback is still owned, not released");
   assert!(got.n == post.n, "obs.post: next slot differs from the contract");
+  assert!(!(got.e && !post.e), "obs.post: error slot differs from the contract: the callback is still owned, not released");
   assert!(got.e == post.e, "obs.post: error slot differs from the contract");
+  assert!(!(got.c && !post.c), "obs.post: complete slot differs from the contract: the callback is still owned, not released");
   assert!(got.c == post.c, "obs.post: complete slot differs from the contract");
   assert!(got.t == post.t, "obs.post: teardown slot differs from the contract");
   assert!(ob.is_subscribed() == obs_is_subscribed(post), "obs.is_subscribed(post): differs from the model");
